@@ -82,3 +82,15 @@ claimed["C18"] = dict(
     text="Every enumerated command line on every corpus state ended with exit status 0 or 1, without Go panic text and within the time limit; every invocation the generator marked invalid by its arguments alone that exited non-zero left the complete disk state unchanged.",
     note="Trusted: the generator's notion of 'invalid by arguments alone' (decided before the run, never from the error text). States outside the corpus and argument lists longer than 2 are not covered; no random sequences (different family).",
 )
+claimed["C01"] = dict(
+    category="model_checking",
+    technique="in-module exhaustive input enumeration (every byte string of length 0..L over a 7-byte sharp alphabet x 3 kinds, boundary sizes up to 4 MiB x 4 fills, header-shaped payloads, all ordered pairs of short strings sharing a fan-out directory) against an independent SHA-1/zlib codec, plus CLI hash-object/add/cat-file on short strings and boundary sizes",
+    text="For every enumerated payload and kind: the id equals SHA-1('<kind> <len>\\0'+bytes); the object file sits at the fan-out path and inflates independently to exactly header+bytes; GetObject returns the same kind, size, bytes and id; storing it again, or storing a neighbour in the same fan-out directory, leaves every earlier object decoding to its original content; hash-object prints the id and cat-file -p prints the bytes.",
+    note="Trusted: the harness's own zlib+SHA-1 reader (stdlib only). Arbitrary multi-MiB byte strings are covered only as an enumerated family (sizes x fills), all strings only up to length L over the alphabet.",
+)
+claimed["C06"] = dict(
+    category="model_checking",
+    technique="in-module exhaustive enumeration: every realizable subset (size <= k) of a 16-path universe ordered around '/' x every insertion order, plus DFS over update/re-update/delete histories on one live Index; independent decoder of the index file and a sorted-map model after every operation; every query name looked up on the live and the reloaded instance; CLI rm/restore/add on every small entry set",
+    text="For every enumerated entry set, order and history the index file decodes to exactly the model's entries in strictly ascending byte order without duplicates, a fresh load yields the same, and for every query name GetEntry finds it iff tracked, IsRegisteredAsDirectory holds iff some tracked path lies beneath '<name>/', GetEntriesByDirectory returns exactly those paths; rm/restore/add <name> succeed or refuse accordingly.",
+    note="Trusted: the harness's index decoder and prefix predicates. Entry sets above size k and names outside the universe are not covered.",
+)
